@@ -536,3 +536,47 @@ Fixpoint lf_reassemble (fuel : nat) (body : bytes) (szx n : Z) : option bytes :=
     if more then match lf_reassemble k body szx (n + 1) with Some r => Some (b ++ r) | None => None end
     else Some b
   end.
+
+(* ------------------------------------------------------------------ request -> query string *)
+
+(* is_unescaped_in_query (src/coap_uri.c): ALPHA / DIGIT / "-._~!$'()*+,;=:@" / "/" / "?";
+   '&' is escaped inside an option because it separates the options in the string *)
+Definition lf_unescaped_in_query (c : Z) : bool :=
+  ((65 <=? c) && (c <=? 90)) || ((97 <=? c) && (c <=? 122)) || ((48 <=? c) && (c <=? 57)) ||
+  existsb (Z.eqb c) [45; 46; 95; 126; 33; 36; 39; 40; 41; 42; 43; 44; 59; 61; 58; 64; 47; 63].
+
+Definition lf_hex_digit (n : Z) : Z := if n <? 10 then 48 + n else 55 + n.
+
+Fixpoint lf_escape_query (s : bytes) : bytes :=
+  match s with
+  | [] => []
+  | c :: tl =>
+    if lf_unescaped_in_query c then c :: lf_escape_query tl
+    else 37 :: lf_hex_digit (c / 16) :: lf_hex_digit (c mod 16) :: lf_escape_query tl
+  end.
+
+Fixpoint lf_join_amp (ls : list bytes) : bytes :=
+  match ls with
+  | [] => []
+  | x :: tl => match tl with [] => x | _ :: _ => x ++ 38 :: lf_join_amp tl end
+  end.
+
+(* coap_get_query(request) for the Uri-Query option values of the request, in order:
+   NULL when the string would be empty *)
+Definition lf_get_query (opts : list bytes) : option bytes :=
+  let q := lf_join_amp (map lf_escape_query opts) in
+  match q with [] => None | _ :: _ => Some q end.
+
+(* GET /.well-known/core with these Uri-Query options, COAP_BLOCK_USE_LIBCOAP set: the body
+   handed to coap_add_data_large_response *)
+Definition lf_handle_get (rs : list lf_res) (opts : list bytes) : lf_resp :=
+  lf_get_wellknown rs (lf_get_query opts).
+
+(* the same without COAP_BLOCK_USE_LIBCOAP (block mode 0, the default of a new context):
+   the body is cut to the room left in the response PDU (max_size - used_size - 1) and sent
+   as a complete response *)
+Definition lf_handle_get_nolib (rs : list lf_res) (opts : list bytes) (room : Z) : lf_resp :=
+  match lf_handle_get rs opts with
+  | Lf205 b => Lf205 (if room <? len b then take room b else b)
+  | x => x
+  end.
